@@ -246,11 +246,15 @@ func (f *Frame) execCall(c *ssa.CallCommon, result ssa.Value, pos token.Pos) EV 
 			if n == 0 {
 				return Tuple{}
 			}
-			return vc.applyUF(key, sig, vals, 0)
+			r := vc.applyUF(key, sig, vals, 0)
+			f.assumeAlive(f.cur, r)
+			return r
 		}
 		var tup Tuple
 		for i := 0; i < n; i++ {
-			tup = append(tup, vc.applyUF(key, sig, vals, i))
+			r := vc.applyUF(key, sig, vals, i)
+			f.assumeAlive(f.cur, r)
+			tup = append(tup, r)
 		}
 		return tup
 	case "inline":
@@ -302,6 +306,13 @@ func packResults(res []EV, resT types.Type) EV {
 }
 
 func (f *Frame) havocHeap() {
+	// alive survives (monotone) even when everything else is unknown
+	oldAl := f.getCell(f.cur, "ghost:alive", aliveSort)
+	defer func() {
+		newAl := f.vc.fresh("ghost:alive@havoc", aliveSort)
+		f.vc.assume(fmt.Sprintf("(forall ((x Int)) (! (=> (select %s x) (select %s x)) :pattern ((select %s x))))", oldAl, newAl, oldAl))
+		f.setCell(f.cur, "ghost:alive", aliveSort, newAl)
+	}()
 	for k := range f.cur.cells {
 		if !strings.HasPrefix(k, "L:") && !strings.HasPrefix(k, "V:") {
 			delete(f.cur.cells, k)
@@ -531,6 +542,11 @@ func (f *Frame) applyContract(con *Contract, key string, sig *types.Signature, a
 	}
 	pre := f.cur.clone()
 	env := f.calleeEnv(con, sig, args, f.cur, nil, nil)
+	if !c.IsInvoke() && c.StaticCallee() == nil {
+		if fv, ok := evAsVal(f.val(c.Value)); ok {
+			env.names["$fn"] = fv
+		}
+	}
 	// the caller's receiver is visible to context-dependent dependency contracts as `caller`
 	if len(f.fn.Params) > 0 && f.fn.Signature.Recv() != nil {
 		env.names["caller"] = f.vals[f.fn.Params[0]]
@@ -556,6 +572,13 @@ func (f *Frame) applyContract(con *Contract, key string, sig *types.Signature, a
 			}
 		}
 	}
+	// the callee may allocate: alive only grows
+	if !con.Pure {
+		oldAl := f.getCell(f.cur, "ghost:alive", aliveSort)
+		newAl := vc.fresh("ghost:alive@call", aliveSort)
+		vc.assume(fmt.Sprintf("(forall ((x Int)) (! (=> (select %s x) (select %s x)) :pattern ((select %s x))))", oldAl, newAl, oldAl))
+		f.setCell(f.cur, "ghost:alive", aliveSort, newAl)
+	}
 	// results
 	var results []EV
 	n := sig.Results().Len()
@@ -576,7 +599,15 @@ func (f *Frame) applyContract(con *Contract, key string, sig *types.Signature, a
 			results = append(results, vc.freshVal(fmt.Sprintf("res:%s#%d", shortKey(key), ord), rt))
 		}
 	}
+	for _, r := range results {
+		if v, ok := evAsVal(r); ok {
+			f.assumeAlive(f.cur, v)
+		}
+	}
 	env2 := f.calleeEnv(con, sig, args, f.cur, pre, results)
+	if v, ok := env.names["$fn"]; ok {
+		env2.names["$fn"] = v
+	}
 	if len(f.fn.Params) > 0 && f.fn.Signature.Recv() != nil {
 		env2.names["caller"] = f.vals[f.fn.Params[0]]
 	}
